@@ -163,8 +163,21 @@ func readalign(file string) (alchan *align.AlignChannel, err error) {
 				pp := phylip.NewParser(r, rootinputstrict)
 				pp.Alphabet(alphabet)
 				pp.IgnoreIdentical(ignoreidentical)
-				pp.ParseMultiple(alchan)
+				// An input without any alignment is an error (as for the other formats):
+				// commands that take the first alignment would otherwise get a nil one
+				tmpchan := &align.AlignChannel{Achan: make(chan align.Alignment, 15)}
+				go pp.ParseMultiple(tmpchan)
+				nbaligns := 0
+				for al := range tmpchan.Achan {
+					alchan.Achan <- al
+					nbaligns++
+				}
+				alchan.Err = tmpchan.Err
+				if nbaligns == 0 && alchan.Err == nil {
+					alchan.Err = errors.New("no alignment in the phylip input")
+				}
 				fi.Close()
+				close(alchan.Achan)
 			}()
 		} else if rootnexus {
 			var al align.Alignment
